@@ -22,6 +22,19 @@ CHECKS = {
             "Trusted: TLC; the transcription tools/parser_table.py (its predictions are compared with the code as drift: 0 "
             "disagreements on 132k inputs); rendering of token classes to lexemes. Data-dependent parser branches are not modelled.",
             "DESIGN.md 4 C01"),
+    "C16": (["HeapOps.tla", "Heap.tla", "Heap_Trace.tla"],
+            "TLA+ alias-graph / heap model (containers by reference, 13 mutator and 17 non-mutating actions, TLC: PureLeavesHeap, "
+            "MutatorTouchesOnlyTarget, FreshResultsIndependent, AliasesAgree); every exported transition replayed as a program with "
+            "all names re-read; TLC trace validation of a before/after sweep over every base and module function",
+            "TLC explores all operation sequences <= 2 (+1 probing mutation; thorough <= 3) plus random walks over nine initial alias "
+            "graphs of four names (variable, parameter, slot in another container, closure variable) and checks that only documented "
+            "mutators change the heap, only their target, and that results of non-mutating operations share nothing; 55k exported "
+            "transitions are replayed on the interpreter (every name rendered after every step), and 27k recorded calls of 250 "
+            "functions/operator forms (arguments rendered before and after) are validated by Heap_Trace.",
+            "Trusted: TLC, HeapOps' documented-mutator table (append, append_all, insert_at, delete_at, remove, put, element and member "
+            "assignment). Strings are not modelled as shared (the statement does not say they are). Functions returning one of their "
+            "arguments (identity, if_null, min, max) are drift.",
+            "DESIGN.md 4 C16"),
     "C18": (["StrOps.tla", "Str.tla", "Str_Trace.tla"],
             "TLA+ string algebra (reference operators over code-point sequences + driver machine mirroring the replace/join/"
             "reverse loops of string.ckl) model-checked by TLC; exported cases replayed on the interpreter; TLC trace validation "
